@@ -1,5 +1,6 @@
 import TaskModel.Load.MergeInvariant
 import TaskModel.Load.RootRef
+import TaskModel.Load.PathLemmas
 import TaskModel.Load.VarsLemmas
 import TaskModel.Gen.Fields
 import TaskModel.Gen.Load
@@ -24,16 +25,19 @@ the merge succeeds, every definition of the callable tree of the root (`Reach`: 
 file's own tasks, and for every include statement `i` on an edge the non-excluded
 definitions reachable from the included file, renamed by `renName i`) is a key of the
 merged table and carries its definition's commands and dependencies, renamed level by
-level (`renCmds`, `renRefs` only touch `task:` targets). -/
+level (`renCmds`, `renRefs` only touch `task:` targets) and resolved once at the end
+(`resolveCmd`, `resolveRootRef`: the `ResolveRootRefs` pass, which only strips the root
+marker `:` of a reference). -/
 theorem C08_present (g : Graph) (σ : List Nat) (ε : Edge → List Include) (hσ : IsTopo g σ)
     (tf : Taskfile) (h : g.merge σ ε = .ok tf) (root : Nat) (hroot : σ.head? = some root)
-    (n : Name) (c : List Cmd) (d : List Name) (hr : Reach g ε root n c d) : HasDef tf n c d :=
+    (n : Name) (c : List Cmd) (d : List Name) (hr : Reach g ε root n c d) :
+    HasDef tf n (c.map resolveCmd) (d.map resolveRootRef) :=
   merge_reach g σ ε hσ tf h n c d root hroot hr
 
 /-- the same for the load the driver executes (`load` = read + canonical merge) -/
 theorem C08_present_load (fm : FileMap) (root : Nat) (tf : Taskfile) (h : load fm root = .ok tf) :
     ∃ g, readGraph fm root = .ok g ∧
-      ∀ n c d, Reach g.normalize canonicalEps root n c d → HasDef tf n c d := by
+      ∀ n c d, Reach g.normalize canonicalEps root n c d → HasDef tf n (c.map resolveCmd) (d.map resolveRootRef) := by
   simp only [load] at h
   split at h
   · rename_i g hg
@@ -61,6 +65,10 @@ theorem renCmds_sh (i : Include) (c : List Cmd) : (renCmds i c).map (·.sh) = c.
   simp only [renCmds]; split
   · rfl
   · simp [List.map_map, Function.comp_def, prefixCmd]
+
+/-- … also by the final pass -/
+theorem resolveCmd_sh (c : List Cmd) : (c.map resolveCmd).map (·.sh) = c.map (·.sh) := by
+  simp [List.map_map, Function.comp_def, resolveCmd]
 
 /-- **the `ns` → `ns:default` shortcut**: if the included file has a (non-excluded) task
 `default`, the include is not flattened and the merged table has no task named like the
@@ -103,15 +111,15 @@ theorem C08_aliases (t1 t2 r : Table) (inc : Include) (itv : Vars) (h : mergeTas
   obtain ⟨t', h1, h2, h3⟩ := defaultAlias_mem inc t2 _ _ hnew
   exact ⟨t', h1, (core_fields h2).1.trans (mergeOne_name _ _ _), h3⟩
 
-/-! ## C08_refs — references resolve to tasks of the own file; `:`-references -/
+/-! ## C08_refs — references resolve to tasks of the own file; `:`-references reach the root -/
 
 /-- a name that is a plain local name: non-empty, not starting with `:` -/
 def LocalName (n : Name) : Prop := ∃ c r, n = c :: r ∧ c ≠ colon
 
 /-- one level renames a local reference exactly like the task it names -/
 theorem prefixRef_local (ns n : Name) (h : LocalName n) : prefixRef ns n = withNs n ns := by
-  obtain ⟨c, r, rfl, _⟩ := h
-  simp [prefixRef]
+  obtain ⟨c, r, rfl, hc⟩ := h
+  simp [prefixRef, refWithNs, hc]
 
 theorem renRef_eq_renName (i : Include) (n : Name) (h : LocalName n) : renRefs i [n] = [renName i n] := by
   simp only [renRefs, renName]; split
@@ -125,19 +133,17 @@ theorem renName_local (i : Include) (n : Name) (h : LocalName n) (hns : LocalNam
     obtain ⟨c', r', hn, hc'⟩ := hns
     exact ⟨c', r' ++ colon :: c :: r, by simp [withNs, hc, hn], hc'⟩
 
-/-- a name / a reference carried up an include path (innermost include first) -/
-def renNamePath (p : List Include) (n : Name) : Name := p.foldl (fun acc i => renName i acc) n
-def renRefPath (p : List Include) (n : Name) : Name :=
-  p.foldl (fun acc i => if i.flatten then acc else prefixRef i.ns acc) n
+/-- the final `ResolveRootRefs` pass leaves a local name alone -/
+theorem resolveRootRef_local (n : Name) (h : LocalName n) : resolveRootRef n = n := by
+  obtain ⟨c, r, rfl, hc⟩ := h
+  simp [resolveRootRef, hc]
 
-/-- **C08_refs.**  Along any include path (any depth, any mix of flattened and namespaced
-includes with proper namespaces) a dependency or `task:` target that names a task of its
-own file is renamed exactly like that task: it resolves to the merged copy of the task
-of its own file. -/
-theorem C08_refs (p : List Include) (n : Name) (h : LocalName n) (hp : ∀ i ∈ p, LocalName i.ns) :
-    renRefPath p n = renNamePath p n := by
+/-- level by level, a local reference is renamed like the task it names, and the result
+is again a local name (`renNamePath`, `renRefPath`: TaskModel.Load.PathLemmas) -/
+theorem renRefPath_local (p : List Include) (n : Name) (h : LocalName n) (hp : ∀ i ∈ p, LocalName i.ns) :
+    renRefPath p n = renNamePath p n ∧ LocalName (renNamePath p n) := by
   induction p generalizing n with
-  | nil => rfl
+  | nil => exact ⟨rfl, h⟩
   | cons i r ih =>
     simp only [renRefPath, renNamePath, List.foldl_cons]
     have hstep : (if i.flatten then n else prefixRef i.ns n) = renName i n := by
@@ -147,42 +153,120 @@ theorem C08_refs (p : List Include) (n : Name) (h : LocalName n) (hp : ∀ i ∈
     rw [hstep]
     exact ih (renName i n) (renName_local i n h (hp i List.mem_cons_self)) (fun j hj => hp j (List.mem_cons_of_mem _ hj))
 
-/-- what the property demands of `:`-prefixed references: `:x` written in an included file
-denotes the task `x` of the ROOT Taskfile, at any depth. -/
-def C08_root_ref_full : Prop :=
-  ∀ (p : List Include) (x : Name), p ≠ [] → LocalName x → (∀ i ∈ p, LocalName i.ns) →
-    renRefPath p (colon :: x) = x
+/-- **C08_refs.**  Along any include path (any depth, any mix of flattened and namespaced
+includes with proper namespaces) a dependency or `task:` target that names a task of its
+own file is, in the loaded Taskfile (`finalRef`: renamed at every level, then the single
+`ResolveRootRefs` pass), exactly the name of the merged copy of that task. -/
+theorem C08_refs (p : List Include) (n : Name) (h : LocalName n) (hp : ∀ i ∈ p, LocalName i.ns) :
+    finalRef p n = renNamePath p n := by
+  obtain ⟨h1, h2⟩ := renRefPath_local p n h hp
+  rw [finalRef, h1]
+  exact resolveRootRef_local _ h2
 
-/-- depth 1, namespaced include: `:x` becomes `x` -/
-theorem C08_root_ref_depth1 (i : Include) (x : Name) (hf : i.flatten = false) :
-    renRefPath [i] (colon :: x) = x := by
-  simp [renRefPath, hf, prefixRef, withNs]
+/-- **C08_root_ref_full** — what the property demands of `:`-prefixed references, at full
+strength: for EVERY include path `p` (any length, the empty path = the root file itself,
+any mix of flattened and namespaced levels, any namespaces) a reference written `:x`
+ends up as `x`, the task `x` of the ROOT Taskfile.  Proved by induction over the path
+(`renRefPath_root`: every level leaves `:x` untouched) plus the single final strip.
+True of the code since F32 (`taskRefWithNamespace`, `ResolveRootRefs`); see the historical
+counterexamples below for the rule it replaces. -/
+theorem C08_root_ref_full (p : List Include) (x : Name) : finalRef p (colon :: x) = x :=
+  finalRef_root p x
+
+/-- the same for `task:` commands: the call keeps its position and payload -/
+theorem C08_root_ref_full_cmd (p : List Include) (x : Name) (sh : Nat) : finalCmd p ⟨colon :: x, sh⟩ = ⟨x, sh⟩ :=
+  finalCmd_root p x sh
+
+/-- **C08_root_ref_graph** — the whole-graph form.  For every include graph, every
+topological order `σ` and per-edge include order `ε`: if the merge succeeds, every
+definition of the callable tree of the root (`Reach`) is a task `t` of some file carried
+up a path `p` of include statements of the graph, and the merged table holds under its
+full name a task whose dependencies and commands are `t`'s carried through `finalRef p` /
+`finalCmd p`; in particular every dependency `:x` of `t` is the dependency `x` of the
+merged copy and every `task: :x` command is the command `task: x`, whatever the depth and
+the flatten flags along `p`. -/
+theorem C08_root_ref_graph (g : Graph) (σ : List Nat) (ε : Edge → List Include) (hσ : IsTopo g σ)
+    (tf : Taskfile) (h : g.merge σ ε = .ok tf) (root : Nat) (hroot : σ.head? = some root)
+    (n : Name) (c : List Cmd) (d : List Name) (hr : Reach g ε root n c d) :
+    ∃ (p : List Include) (w : Nat) (f : Taskfile) (t : Task), g.verts.get w = some f ∧ t ∈ f.tasks ∧
+      (∀ i ∈ p, ∃ e ∈ g.edges, i ∈ ε e) ∧ n = renNamePath p t.name ∧
+      ∃ t' ∈ tf.tasks, t'.name = n ∧ t'.deps = t.deps.map (finalRef p) ∧ t'.cmds = t.cmds.map (finalCmd p) ∧
+        (∀ x, colon :: x ∈ t.deps → x ∈ t'.deps) ∧
+        (∀ x sh, (⟨colon :: x, sh⟩ : Cmd) ∈ t.cmds → (⟨x, sh⟩ : Cmd) ∈ t'.cmds) := by
+  obtain ⟨t', ht', h1, h2, h3⟩ := merge_reach g σ ε hσ tf h n c d root hroot hr
+  obtain ⟨p, w, f, t, hv, ht, hp, hn, hc, hd⟩ := reach_path hr
+  have hdeps : t'.deps = t.deps.map (finalRef p) := by
+    rw [h3, hd, List.map_map]; rfl
+  have hcmds : t'.cmds = t.cmds.map (finalCmd p) := by
+    rw [h2, hc, List.map_map]; rfl
+  refine ⟨p, w, f, t, hv, ht, hp, hn, t', ht', h1, hdeps, hcmds, ?_, ?_⟩
+  · intro x hx
+    rw [hdeps]
+    exact List.mem_map.mpr ⟨colon :: x, hx, C08_root_ref_full p x⟩
+  · intro x sh hx
+    rw [hcmds]
+    exact List.mem_map.mpr ⟨⟨colon :: x, sh⟩, hx, C08_root_ref_full_cmd p x sh⟩
 
 def incNs (ns : Name) (flatten : Bool) : Include :=
   { ns := ns, file := 0, dir := Dir.unset, optional := false, internal := false, flatten := flatten,
     advanced := flatten, aliases := [], excludes := [], vars := [] }
 
-/-- depth 2: the `:` is stripped by the first merge and the name is re-prefixed by the
-second — `:r` written two levels down ends up as `a:r`, the PARENT's task (finding
-`C08-root-ref-depth2`). -/
-theorem C08_root_ref_depth2_counterexample :
-    renRefPath [incNs [98] false, incNs [97] false] (colon :: [114]) = [97, 58, 114] := by decide
+/-- non-vacuity: a depth-3 path with a flattened middle level (`c`, flattened `b`, `a`): `:r`
+is carried unchanged through the three merges and resolved to `r`; the local `u` next to
+it becomes `a:c:u`, the name of its own file's task -/
+example : renRefPath [incNs [99] false, incNs [98] true, incNs [97] false] (colon :: [114]) = [58, 114]
+    ∧ finalRef [incNs [99] false, incNs [98] true, incNs [97] false] (colon :: [114]) = [114]
+    ∧ finalRef [incNs [99] false, incNs [98] true, incNs [97] false] [117] = [97, 58, 99, 58, 117]
+    ∧ renNamePath [incNs [99] false, incNs [98] true, incNs [97] false] [117] = [97, 58, 99, 58, 117] := by decide
 
-/-- depth 1, flattened include: the `:` is never stripped — `:r` stays `:r`, which names no
-task (finding `C08-root-ref-flatten`). -/
-theorem C08_root_ref_flatten_counterexample :
-    renRefPath [incNs [97] true] (colon :: [114]) = [58, 114] := by decide
+/-! ### Historical: the rule before F32 (`taskNameWithNamespace` applied to references)
 
-theorem C08_root_ref_full_false : ¬ C08_root_ref_full := by
-  intro h
-  have := h [incNs [98] false, incNs [97] false] [114] (by simp) ⟨114, [], rfl, by decide⟩
-    (by intro i hi
-        simp only [List.mem_cons, List.mem_nil_iff, or_false] at hi
-        rcases hi with rfl | rfl
-        · exact ⟨98, [], rfl, by decide⟩
-        · exact ⟨97, [], rfl, by decide⟩)
-  rw [C08_root_ref_depth2_counterexample] at this
-  exact absurd this (by decide)
+Until F32 `Tasks.Merge` renamed dependencies and `task:` targets with the function it uses
+for task names: the first non-flattened merge stripped the `:`, every later one prefixed
+its namespace, and a flattened merge never stripped it.  These two facts about that OLD
+rule are the machine-checked witnesses of the (now fixed) findings `C08-root-ref-depth2`
+and `C08-root-ref-flatten`; they say nothing about the current model. -/
+
+/-- the old per-level rule -/
+def oldPrefixRef (ns : Name) (n : Name) : Name := if n = [] then n else withNs n ns
+
+def oldRenRefPath (p : List Include) (n : Name) : Name :=
+  p.foldl (fun acc i => if i.flatten then acc else oldPrefixRef i.ns acc) n
+
+/-- old rule, depth 2: `:r` written two levels down ended up as `a:r`, the PARENT's task -/
+theorem C08_old_rule_depth2_counterexample :
+    oldRenRefPath [incNs [98] false, incNs [97] false] (colon :: [114]) = [97, 58, 114] := by decide
+
+/-- old rule, flattened include: `:r` stayed `:r`, which names no task -/
+theorem C08_old_rule_flatten_counterexample :
+    oldRenRefPath [incNs [97] true] (colon :: [114]) = [58, 114] := by decide
+
+/-- … where the current rule gives `r` on both paths -/
+example : finalRef [incNs [98] false, incNs [97] false] (colon :: [114]) = [114]
+    ∧ finalRef [incNs [97] true] (colon :: [114]) = [114] := by decide
+
+/-! ### The rule in the source (regenerated on every run) -/
+
+/-- **tie, regenerated half**: in `Tasks.Merge` dependencies and `task:` targets go through
+`taskRefWithNamespace`, aliases and the task name through `taskNameWithNamespace`;
+`taskRefWithNamespace` returns a `:`-prefixed name unchanged and defers to
+`taskNameWithNamespace` otherwise; `Tasks.ResolveRootRefs` trims one leading separator from
+every `dep.Task` / `cmd.Task`; and `TaskfileGraph.Merge` calls it on the root vertex after
+the merge loop, before returning that vertex's Taskfile. -/
+theorem root_ref_rule_in_source :
+    Load.tasksMergeRenames =
+      [("dep.Task", "taskRefWithNamespace", "dep.Task"), ("cmd.Task", "taskRefWithNamespace", "cmd.Task"),
+       ("task.Aliases[i]", "taskNameWithNamespace", "alias"), ("task.Aliases", "taskNameWithNamespace", "task.Task"),
+       ("task.Aliases", "taskNameWithNamespace", "alias"), ("taskName", "taskNameWithNamespace", "name")]
+    ∧ Load.taskRefWithNamespaceBody =
+      ["if strings.HasPrefix(taskName, NamespaceSeparator)", "return taskName",
+       "return taskNameWithNamespace(taskName, namespace)"]
+    ∧ Load.resolveRootRefsAssigns =
+      [("dep.Task", "strings.TrimPrefix(dep.Task, NamespaceSeparator)"),
+       ("cmd.Task", "strings.TrimPrefix(cmd.Task, NamespaceSeparator)")]
+    ∧ Load.graphMergeAfterLoop =
+      ["rootVertex, err := tfg.Vertex(hashes[0])", "rootVertex.Taskfile.Tasks.ResolveRootRefs()",
+       "return rootVertex.Taskfile, nil"] := by decide
 
 /-! ## C08_attrs — every attribute survives the copy -/
 
@@ -370,13 +454,36 @@ def refsOf : Except Err Taskfile → List (Name × List Name)
   | .ok tf => tf.tasks.map (fun t => (t.name, t.refs))
   | .error _ => []
 
-/-- machine-checked witness of the depth-2 root reference: `a:b:t` calls `a:r` (the parent's
-task) and `a:b:u`, where the property demands `r` (the root's task) and `a:b:u`. -/
+/-- the depth-2 tree of the former finding `C08-root-ref-depth2`: `a:b:t` calls `r` (the
+root's task, where the old rule gave `a:r`) and `a:b:u`, exactly what the independent
+monitor `specRefs` demands. -/
 theorem C08_root_ref_witness :
-    (refsOf (load fm3 0)).lookup [97, 58, 98, 58, 116] = some [[97, 58, 114], [97, 58, 98, 58, 117]] ∧
+    (refsOf (load fm3 0)).lookup [97, 58, 98, 58, 116] = some [[114], [97, 58, 98, 58, 117]] ∧
     (match specRefs fm3 0 with
      | .ok l => (l.map (fun x => (x.1, x.2.2))).lookup [97, 58, 98, 58, 116]
      | .error _ => none) = some [[114], [97, 58, 98, 58, 117]] := by decide
+
+/-- root (0) includes `a` → file 1, which includes file 2 FLATTENED, which includes `c` →
+file 3; file 3's task `t` depends on `:r`, calls `:r` and its own `u`; file 2's task `m`
+(flattened into `a`) calls `:r`; the root's own task `s` calls `:r`. -/
+def fm4 : FileMap :=
+  [(0, tfile [tk [114] [⟨[], 1⟩] [] 0, tk [115] [⟨[58, 114], 0⟩] [] 0] [decl [97] 1]),
+   (1, tfile [tk [114] [⟨[], 2⟩] [] 1] [decl [98] 2 true]),
+   (2, tfile [tk [109] [⟨[58, 114], 0⟩] [] 2] [decl [99] 3]),
+   (3, tfile [tk [116] [⟨[58, 114], 0⟩, ⟨[117], 0⟩] [[58, 114]] 3, tk [117] [⟨[], 3⟩] [] 3] [])]
+
+/-- non-vacuity of `C08_root_ref_graph` on a depth-3 path with a flattened level: the tree
+loads with keys `r`, `s`, `a:r`, `a:m`, `a:c:t`, `a:c:u`; every `:r` — written in the root
+file, in the flattened file and three levels down — is `r` in the loaded table, the
+local `u` is `a:c:u`; and the table of references equals the monitor's. -/
+theorem C08_root_ref_depth3_flatten_witness :
+    keysOf (load fm4 0) = [[114], [115], [97, 58, 114], [97, 58, 109], [97, 58, 99, 58, 116], [97, 58, 99, 58, 117]] ∧
+    (refsOf (load fm4 0)).lookup [97, 58, 99, 58, 116] = some [[114], [114], [97, 58, 99, 58, 117]] ∧
+    (refsOf (load fm4 0)).lookup [97, 58, 109] = some [[114]] ∧
+    (refsOf (load fm4 0)).lookup [115] = some [[114]] ∧
+    (match specRefs fm4 0 with
+     | .ok l => some (l.map (fun x => (x.1, x.2.2)))
+     | .error _ => none) = some (refsOf (load fm4 0)) := by decide
 
 def isErr (e : Err) : Except Err Taskfile → Bool
   | .error e' => e == e'
